@@ -169,6 +169,12 @@ impl Runner {
         *w.stats.by_kind.entry(ev.kind()).or_default() += 1;
         w.failed.clear();
         let n_out = w.outcomes.len();
+        if matches!(
+            ev,
+            Ev::AddDim { .. } | Ev::DelDim { .. } | Ev::AddAttr { .. } | Ev::DelAttr { .. } | Ev::RenameAttr { .. } | Ev::DisableAttr { .. } | Ev::Rekey { .. } | Ev::Prune { .. } | Ev::Restore { .. } | Ev::RequestRefresh { .. }
+        ) {
+            w.epoch += 1;
+        }
         match ev {
             Ev::AddDim { name, hierarchy } => w.ev_add_dim(name, *hierarchy),
             Ev::DelDim { name } => w.ev_del_dim(name),
